@@ -29,14 +29,18 @@ Strip(q, acc) ==
     IF q = <<>> THEN acc
     ELSE Strip(Tail(q), IF \E i \in DOMAIN acc : acc[i].k = Head(q).k /\ acc[i].p = Head(q).p THEN acc ELSE Append(acc, Head(q)))
 
+(* one SendShutterMessages call: until the outbox is empty or shuttermint refuses the head *)
 RECURSIVE PostAll(_)
-PostAll(x) == IF x.db.outbox = <<>> THEN x ELSE PostAll(DoDeleteHead(DoSendHead(x)))
+PostAll(x) == IF x.db.outbox = <<>> THEN x
+              ELSE LET y == DoSendHead(x) IN IF y.stuck THEN y ELSE PostAll(DoDeleteHead(y))
 
-KnownKinds == {"checkin", "commit", "eval", "eval2", "old", "acc", "apol", "result"}
+KnownKinds == {"vote", "bseen", "checkin", "commit", "eval", "eval2", "old", "acc", "apol", "result"}
 Evaluable(x, what, h) ==
     CASE what = "sync"  -> x.db.sync < h /\ h = x.head /\ Len(x.blocks) >= h + 1
       [] what = "post"  -> \A i \in DOMAIN x.db.outbox : x.db.outbox[i].k \in KnownKinds
-      [] what = "close" -> x.db.outbox = <<>> /\ x.head + 1 = h
+      [] what = "close" -> x.head + 1 = h
+      [] what = "gov"   -> Gov /\ x.pc = "gov"
+      [] what = "closedown" -> x.pc = "down" /\ x.head + 1 = h
       [] OTHER -> FALSE
 
 (* one SyncAppWithDB call: one transaction per closed block that is not applied yet; the memory of
@@ -55,12 +59,15 @@ SpecStep(x, what) ==
     CASE what = "sync"  -> DoSyncDone(SyncAll(x))
       [] what = "post"  -> PostAll([x EXCEPT !.pc = "post"])
       [] what = "close" -> DoClose([x EXCEPT !.pc = "post"])
+      [] what = "gov"   -> DoGovTx(x)
+      [] what = "closedown" -> DoCloseDown(x)
 
 IsSuffix(a, b) == Len(a) <= Len(b) /\ a = SubSeq(b, Len(b) - Len(a) + 1, Len(b))
 
 (* what the database may look like right after a crash inside the step *)
 MidAllowed(pre, e, what, mid) ==
     CASE what = "sync" -> mid.db \in SyncDbs(pre)
+      [] what = "gov"  -> mid.db = pre.db \/ mid.db = e.db
       [] what = "post" -> mid.db = [pre.db EXCEPT !.outbox = mid.db.outbox] /\ IsSuffix(mid.db.outbox, pre.db.outbox)
       [] OTHER -> FALSE
 
